@@ -3,8 +3,10 @@
 (* TLAPS proof that the iterator machine of LibIt.tla (index abstraction   *)
 (* of spec/apalache/LibItInd.tla) keeps its inductive invariant for EVERY  *)
 (* sequence length, and that the invariant implies what C12 states:        *)
-(* len() is the number of elements not yet yielded, nothing is yielded     *)
-(* twice, and None is only returned when everything has been yielded.      *)
+(* len() is the number of elements not yet consumed, nothing is yielded    *)
+(* twice, and None is only returned when everything has been consumed -    *)
+(* under next, next_back, len and the skipping calls nth(k), nth_back(k)   *)
+(* for every k.                                                            *)
 (*   tlapm --threads 8 LibItProof.tla                                      *)
 (***************************************************************************)
 EXTENDS Integers, TLAPS
@@ -21,7 +23,15 @@ CallNextBack ==
     /\ IF f < b THEN b' = b - 1 /\ yb' = yb + 1 ELSE b' = b /\ yb' = yb
     /\ UNCHANGED <<n, f, yf>>
 CallLen == UNCHANGED vars
-Next == CallNext \/ CallNextBack \/ CallLen
+\* nth(k) / nth_back(k) as TraceLib judges them (Clauses!ItNth, ItNthBack): k elements are
+\* skipped and one is yielded, or the iterator becomes exhausted; yf / yb count consumed elements
+CallNth(k) ==
+    /\ IF f + k < b THEN f' = f + k + 1 /\ yf' = yf + k + 1 ELSE f' = b /\ yf' = yf + (b - f)
+    /\ UNCHANGED <<n, b, yb>>
+CallNthBack(k) ==
+    /\ IF f + k < b THEN b' = b - k - 1 /\ yb' = yb + k + 1 ELSE b' = f /\ yb' = yb + (b - f)
+    /\ UNCHANGED <<n, f, yf>>
+Next == CallNext \/ CallNextBack \/ CallLen \/ (\E k \in Nat : CallNth(k)) \/ (\E k \in Nat : CallNthBack(k))
 Spec == Init /\ [][Next]_vars
 
 IndInv == /\ n \in Nat /\ f \in Nat /\ b \in Nat /\ yf \in Nat /\ yb \in Nat
@@ -46,8 +56,18 @@ THEOREM NextInv == IndInv /\ [Next]_vars => IndInv'
     BY <1>3 DEF IndInv, CallLen, vars
   <1>4. CASE UNCHANGED vars
     BY <1>4 DEF IndInv, vars
+  <1>5. CASE \E k \in Nat : CallNth(k)
+    <2> PICK k \in Nat : CallNth(k)
+      BY <1>5
+    <2> QED
+      BY DEF IndInv, CallNth
+  <1>6. CASE \E k \in Nat : CallNthBack(k)
+    <2> PICK k \in Nat : CallNthBack(k)
+      BY <1>6
+    <2> QED
+      BY DEF IndInv, CallNthBack
   <1> QED
-    BY <1>1, <1>2, <1>3, <1>4 DEF Next
+    BY <1>1, <1>2, <1>3, <1>4, <1>5, <1>6 DEF Next
 
 THEOREM InvSafety == IndInv => Safety
   BY DEF IndInv, Safety
